@@ -25,6 +25,17 @@ Theorem C13_descent_total : forall kids U, (forall n, In n U -> incl (kids n) U)
   forall n, In n U -> exists r, descend kids (S (length U)) [] n = Some r.
 Proof. exact descend_total. Qed.
 
+(* the chain of cross-reference sections (/XRefStm, then /Prev, from startxref): on ANY graph of links between a finite
+   set of sections the reader terminates within a recursion depth of one more than their number, reads no section
+   twice, and reads nothing it was not sent to *)
+Theorem C13_xref_chain_terminates : forall links U, (forall n, In n U -> incl (links n) U) ->
+  forall fuel vis start, In start U -> (unv U vis < fuel)%nat ->
+  exists res, xread links fuel vis start = Some res /\ good U vis res.
+Proof. exact xread_terminates. Qed.
+Theorem C13_xref_chain_total : forall links U, (forall n, In n U -> incl (links n) U) ->
+  forall start, In start U -> exists vis o, xread links (S (length U)) [] start = Some (vis, o) /\ NoDup o /\ incl o U.
+Proof. exact xread_total. Qed.
+
 (* no range is expanded into more than 65536 steps, and legitimate ranges are not shortened *)
 Theorem C13_cmap_range_bounded : forall s e, 0 <= cmap_range_steps s e <= 65536.
 Proof. exact cmap_range_bounded. Qed.
@@ -41,11 +52,16 @@ Print Assumptions C13_descent_terminates.
 Print Assumptions C13_descent_total.
 Print Assumptions C13_cmap_range_bounded.
 Print Assumptions C13_width_range_bounded.
+Print Assumptions C13_xref_chain_terminates.
+Print Assumptions C13_xref_chain_total.
 Print Assumptions C13_cmap_range_exact.
 Print Assumptions C13_width_range_exact.
 
 (* non-vacuity: a two-cycle of references, and a form graph with a cycle *)
 Example C13_ex :
   resolve1 (fun i => if i =? 9 then Some (ORef 10) else if i =? 10 then Some (ORef 9) else None) (OVal 0) (ORef 9) = OVal 0 /\
-  descend (fun n => if n =? 1 then [2; 3] else if n =? 2 then [1; 3] else []) 4 [] 1 = Some [1; 2; 3; 3].
-Proof. vm_compute. split; reflexivity. Qed.
+  descend (fun n => if n =? 1 then [2; 3] else if n =? 2 then [1; 3] else []) 4 [] 1 = Some [1; 2; 3; 3] /\
+  (* three sections: 900 -> (XRefStm 700, Prev 500), 700 -> Prev 900 (a cycle), 500 -> Prev 500 (itself) *)
+  xread (fun n => if n =? 900 then [700; 500] else if n =? 700 then [900] else if n =? 500 then [500] else []) 4 [] 900
+  = Some ([500; 700; 900], [900; 700; 500]).
+Proof. vm_compute. repeat split; reflexivity. Qed.
